@@ -348,7 +348,10 @@ static Plan gen_c15(uint64_t seed, const std::string &tier) {
     static const char *names[] = {"bash", "bash2", "ba", "sshd", "my prog", "a)b", "(paren)", "x", "fifteen-bytes-ok", "cron", "sudo", "tmux: server", ") S 1", "sh", "worker"};
     w.procs.clear();
     std::vector<int> pids = {w.pid};
-    for (int i = 0; i < depth; i++) pids.push_back(1000 + i * 37 + (int)r.below(30));
+    // pids up to the kernel's maximum (4194304): 7-digit pids next to 15-byte names make the longest stat lines
+    int pidcls = (int)r.below(3);
+    for (int i = 0; i < depth; i++) { int p; bool dup; do { p = pidcls == 0 ? 1000 + i * 37 + (int)r.below(30) : pidcls == 1 ? (int)r.range(2, 4194303) : (int)r.range(1000000, 4194303); dup = false; for (int q : pids) if (q == p) dup = true; } while (dup); pids.push_back(p); }
+    if (pidcls == 2) { w.pid = (int)r.range(1000000, 4194303); pids[0] = w.pid; }
     pids.push_back(r.chance(1, 8) ? 0 : 1);
     for (size_t i = 0; i + 1 < pids.size(); i++) { Proc pr; pr.pid = pids[i]; pr.ppid = pids[i + 1]; pr.comm = std::string(names[r.below(15)]).substr(0, 15); w.procs.push_back(pr); }
     if (pids.back() == 1) { Proc in; in.pid = 1; in.ppid = 0; in.comm = "systemd"; w.procs.push_back(in); }
@@ -381,7 +384,9 @@ static Verdict oracle_c15(const Plan &p, const RunResult &r) {
 static void describe_c15(const Plan &p, const RunResult &r, J &line) {
     (void)r;
     long d = p.extra.geti("depth"), m = p.extra.geti("mode"), mp = p.extra.geti("match_pos"), fd = p.extra.geti("fail_depth");
-    line.set("sig", "d" + std::to_string(d) + "m" + std::to_string(m) + "p" + std::to_string(mp) + "f" + std::to_string(fd));
+    bool bigpid = false; for (auto &pr : p.world.procs) if (pr.pid >= 1000000) bigpid = true;
+    line.set("sig", "d" + std::to_string(d) + "m" + std::to_string(m) + "p" + std::to_string(mp) + "f" + std::to_string(fd) + (bigpid ? "P" : ""));
+    if (bigpid) line.set("p_seven_digit_pids", true);
     line.set("nontrivial", d >= 1);
     if (m == 0 && mp >= 10) line.set("p_match_deep", true);
     if (m == 1) line.set("p_self_only", true);
@@ -443,6 +448,7 @@ static void describe_c12(const Plan &p, const RunResult &r, J &line) {
     if (w.tty_state == 1) line.set("p_ebadf", true);
     if (w.cwd_errno) line.set("p_deleted_cwd", true);
     if (w.at_secure) line.set("p_secure_exec_mode", true);
+    if (w.ppid == 1 || w.ppid == 0) line.set("p_child_of_init", true);
     for (auto &e : w.env) if (e.compare(0, 3, "TZ=") == 0 && e != "TZ=UTC") line.set("p_tz_non_utc", true);
 }
 static Reg reg_c12({"C12", gen_c12, oracle_c12, nullptr, describe_c12});
